@@ -125,8 +125,41 @@ type c12Env struct {
 	p         *peer
 	cfg       c12Cfg
 	now       int
-	restartAt int // emulated fsm.gracefulRestartTimer deadline, -1 = stopped
 	fsmState  bgp.FSMState
+	enterIdle chan struct{} // the emulated FSM loop is below ESTABLISHED: react to the REAL restart timer
+	leaveIdle chan struct{}
+	quit      chan struct{}
+	idling    bool
+}
+
+// idleLoop plays the `case <-fsm.gracefulRestartTimer.C:` arm of idle()/active()/opensent()/openconfirm():
+// when the REAL timer — armed by the real established(), nowhere in this harness — fires while the FSM is
+// below ESTABLISHED and PeerRestarting is set, the transition to IDLE with fsmRestartTimerExpired is delivered.
+// Like the real loop it does not look at the timer while the session is ESTABLISHED or being torn down.
+func (e *c12Env) idleLoop() {
+	for {
+		select {
+		case <-e.enterIdle:
+		case <-e.quit:
+			return
+		}
+	idle:
+		for {
+			select {
+			case <-e.p.fsm.gracefulRestartTimer.C:
+				if e.p.fsm.pConf.ReadOnly().GracefulRestart.State.PeerRestarting {
+					e.s.handleFSMMessage(e.p, &fsmMsg{MsgType: fsmMsgStateChange, MsgData: bgp.BGP_FSM_IDLE,
+						StateReason: newfsmStateReason(fsmRestartTimerExpired, nil, nil), timestamp: time.Now()})
+					e.p.fsm.state.Store(bgp.BGP_FSM_IDLE)
+					e.fsmState = bgp.BGP_FSM_IDLE
+				}
+			case <-e.leaveIdle:
+				break idle
+			case <-e.quit:
+				return
+			}
+		}
+	}
 }
 
 func c12NewEnv(t *testing.T, cfg c12Cfg) *c12Env {
@@ -135,8 +168,9 @@ func c12NewEnv(t *testing.T, cfg c12Cfg) *c12Env {
 	if err := s.StartBgp(context.Background(), &api.StartBgpRequest{Global: &api.Global{Asn: 65001, RouterId: "1.1.1.1", ListenPort: -1}}); err != nil {
 		t.Fatal(err)
 	}
-	e := &c12Env{t: t, s: s, cfg: cfg, restartAt: -1, fsmState: bgp.BGP_FSM_IDLE}
+	e := &c12Env{t: t, s: s, cfg: cfg, fsmState: bgp.BGP_FSM_IDLE, enterIdle: make(chan struct{}), leaveIdle: make(chan struct{}), quit: make(chan struct{})}
 	e.p = c12AddPeer(t, s, "10.9.0.2", 65002, cfg)
+	go e.idleLoop()
 	return e
 }
 
@@ -179,6 +213,8 @@ func c12AddPeer(t *testing.T, s *BgpServer, addr string, as uint32, cfg c12Cfg) 
 }
 
 func (e *c12Env) stop() {
+	close(e.quit)
+	synctest.Wait()
 	// the neighbour has no FSM goroutine: take it out before the server shuts its peers down
 	_ = e.s.mgmtOperation(func() error {
 		for k, p := range e.s.neighborMap {
@@ -238,8 +274,14 @@ func (e *c12Env) establish(c c12Caps) {
 	e.p.fsm.conn = c12Conn{}
 	e.p.fsm.lock.Unlock()
 	e.p.fsm.stateChange(bgp.BGP_FSM_ESTABLISHED, newfsmStateReason(fsmOpenMsgNegotiated, nil, nil))
+	if e.idling {
+		e.leaveIdle <- struct{}{}
+		e.idling = false
+	}
 	e.stateMsg(bgp.BGP_FSM_ESTABLISHED, fsmOpenMsgNegotiated)
-	e.restartAt = -1 // established() stops fsm.gracefulRestartTimer
+	// established() begins with fsm.gracefulRestartTimer.Stop() (checked on the real function by
+	// TestVerifC12Session); here established() only runs from the moment the session is torn down
+	e.p.fsm.gracefulRestartTimer.Stop()
 }
 
 // c12Reason mirrors established(): which reason reaches handleFSMMessage when the session ends in
@@ -298,14 +340,102 @@ func c12Reason(enabled, notif bool, k, code, sub int) fsmStateReasonType {
 	return raw
 }
 
-func (e *c12Env) loss(k, code, sub int) {
-	conf := e.p.fsm.pConf.ReadOnly()
-	st := conf.GracefulRestart.State
-	r := c12Reason(st.Enabled, st.NotificationEnabled, k, code, sub)
-	if r == fsmGracefulRestart {
-		e.restartAt = e.now + int(st.PeerRestartTime)
+// c12LossElapsed is the virtual time the real established() needs to notice a loss of kind k with the
+// timer values loss() gives it: a KEEPALIVE that cannot be written after 1 s, a hold timer of 3 s.
+func c12LossElapsed(k int) int {
+	switch k {
+	case c12WriteFail:
+		return 1
+	case c12HoldExpiry, c12HoldExpiryWriteErr:
+		return 3
 	}
-	e.stateMsg(bgp.BGP_FSM_IDLE, r)
+	return 0
+}
+
+// loss ends the session the way kind k says through the REAL fsmHandler.established() on an in-memory
+// connection: the classification of the reason and the arming of fsm.gracefulRestartTimer are the code's.
+// What follows (stateChange, callback, state.Store) is what fsmHandler.loop does.  Returns the reason.
+func (e *c12Env) loss(k, code, sub int) fsmStateReasonType {
+	hold, ka := 0.0, 0.0
+	switch k {
+	case c12WriteFail:
+		hold, ka = 1000000, 1
+	case c12HoldExpiry, c12HoldExpiryWriteErr:
+		hold, ka = 3, 1000000
+	}
+	local, remote := net.Pipe()
+	conn := &c12PipeConn{Conn: local}
+	e.p.fsm.lock.Lock()
+	conf := e.p.fsm.pConf.ReadCopy()
+	conf.Timers.State.NegotiatedHoldTime = hold
+	conf.Timers.State.KeepaliveInterval = ka
+	e.p.fsm.pConf.Update(&conf)
+	e.p.fsm.conn = conn
+	e.p.fsm.lock.Unlock()
+	ctx, cancel := context.WithCancel(context.Background())
+	h := &fsmHandler{fsm: e.p.fsm, outgoing: e.p.fsm.outgoingCh, ctx: ctx, ctxCancel: cancel,
+		callback: func(m *fsmMsg) { e.s.handleFSMMessage(e.p, m) }}
+	e.p.fsm.h = h
+	go func() { _, _ = io.Copy(io.Discard, remote) }()
+	type ret struct {
+		next   bgp.FSMState
+		reason *fsmStateReason
+	}
+	done := make(chan ret, 1)
+	go func() {
+		n, r := h.established(ctx)
+		done <- ret{n, r}
+	}()
+	synctest.Wait()
+	t0 := time.Now()
+	switch k {
+	case c12ReadFail:
+		remote.Close()
+	case c12WriteFail:
+		conn.failWrites.Store(true)
+	case c12HoldExpiryWriteErr:
+		// writes start failing only shortly before the hold timer fires: an UPDATE that an LLGR timer of an
+		// earlier restart sends meanwhile must not turn this into a plain write failure
+		time.Sleep(2500 * time.Millisecond)
+		conn.failWrites.Store(true)
+	case c12HoldExpiry:
+	case c12NotifRecv, c12NotifRecvHard:
+		b, _ := bgp.NewBGPNotificationMessage(uint8(code), uint8(sub), nil).Serialize()
+		_, _ = remote.Write(b)
+	case c12NotifSent:
+		e.p.fsm.notification <- bgp.NewBGPNotificationMessage(uint8(code), uint8(sub), nil)
+	case c12AdminDown:
+		e.p.fsm.adminStateCh <- adminStateOperation{State: adminStateDown}
+	case c12PrefixLimit:
+		e.p.fsm.adminStateCh <- adminStateOperation{State: adminStatePfxCt}
+	}
+	got := <-done
+	if el := time.Since(t0); el != time.Duration(c12LossElapsed(k))*time.Second {
+		e.t.Fatalf("loss kind %s took %v of virtual time, expected %d s", c12LossName[k], el, c12LossElapsed(k))
+	}
+	e.now += c12LossElapsed(k)
+	if k == c12AdminDown || k == c12PrefixLimit {
+		// the harness neighbour has no administrative life of its own: back to "up" (before the state change
+		// is delivered, so that handleFSMMessage does not wipe the neighbour's counters and timestamps)
+		e.p.fsm.adminState.Store(adminStateUp)
+		e.p.fsm.lock.Lock()
+		conf := e.p.fsm.pConf.ReadCopy()
+		conf.State.AdminDown = false
+		e.p.fsm.pConf.Update(&conf)
+		e.p.fsm.lock.Unlock()
+	}
+	e.p.fsm.stateChange(got.next, got.reason)
+	e.s.handleFSMMessage(e.p, &fsmMsg{MsgType: fsmMsgStateChange, MsgData: got.next, StateReason: got.reason, timestamp: time.Now()})
+	e.p.fsm.state.Store(got.next)
+	e.fsmState = got.next
+	cancel()
+	remote.Close()
+	local.Close()
+	// the FSM loop is now in idle(): the restart timer is looked at again
+	e.enterIdle <- struct{}{}
+	e.idling = true
+	synctest.Wait()
+	return got.reason.Type
 }
 
 func (e *c12Env) sleepTo(t int) {
@@ -316,17 +446,7 @@ func (e *c12Env) sleepTo(t int) {
 	synctest.Wait()
 }
 
-func (e *c12Env) tick(d int) {
-	target := e.now + d
-	if e.restartAt >= 0 && e.restartAt <= target {
-		e.sleepTo(e.restartAt)
-		e.restartAt = -1
-		if e.fsmState != bgp.BGP_FSM_ESTABLISHED && e.p.fsm.pConf.ReadOnly().GracefulRestart.State.PeerRestarting {
-			e.stateMsg(bgp.BGP_FSM_IDLE, fsmRestartTimerExpired)
-		}
-	}
-	e.sleepTo(target)
-}
+func (e *c12Env) tick(d int) { e.sleepTo(e.now + d) }
 
 func c12Prefix(fam, key int) (bgp.PathNLRI, netip.Addr) {
 	var pfx netip.Prefix
@@ -805,7 +925,7 @@ func (ev c12Ev) line() string {
 	case "est":
 		return ev.caps.line()
 	case "loss":
-		return fmt.Sprintf("loss %d %d %d", ev.a[0], ev.a[1], ev.a[2])
+		return fmt.Sprintf("loss %d %d %d %d", ev.a[0], ev.a[1], ev.a[2], c12LossElapsed(ev.a[0]))
 	case "eor", "tick":
 		return fmt.Sprintf("%s %d", ev.op, ev.a[0])
 	case "goto":
@@ -831,7 +951,7 @@ func c12GenCfg(r *vRand) c12Cfg {
 }
 
 func c12GenCaps(r *vRand, cfg c12Cfg) c12Caps {
-	c := c12Caps{gr: r.chance(85), nbit: r.chance(50), rbit: r.chance(25), time: r.pick(7, 12, 20, 30, 45, 60), llgr: r.chance(55)}
+	c := c12Caps{gr: r.chance(85), nbit: r.chance(50), rbit: r.chance(25), time: r.pick(0, 0, 1, 7, 12, 20, 30, 45, 60, 4095), llgr: r.chance(55)}
 	// the families the peer opens the session with: all configured ones, or (45%) a non-empty subset —
 	// a restarted peer may come back with fewer, more or other families than the lost session had
 	c.mp = []int{}
@@ -866,7 +986,10 @@ func c12GenCaps(r *vRand, cfg c12Cfg) c12Caps {
 			}
 		}
 	}
-	lts := []int{25, 40, 55}
+	// LLGR stale times: the whole range of the 24-bit field, 0 ("expire at once") included
+	all := []int{0, 1, 25, 40, 55, 16777215}
+	pp := r.perm(len(all))
+	lts := []int{all[pp[0]], all[pp[1]], all[pp[2]]}
 	p := r.perm(3)
 	for i, f := range cfg.fams {
 		if inMP(f.id) && r.chance(65) {
@@ -1103,13 +1226,8 @@ func c12RunHistory(t *testing.T, o *vOut, cfg c12Cfg, evs []c12Ev, corpus string
 					o.stat("ev_reestablish", 1)
 				}
 			case "loss":
-				conf := e.p.fsm.pConf.ReadOnly()
-				if c12Reason(conf.GracefulRestart.State.Enabled, conf.GracefulRestart.State.NotificationEnabled, ev.a[0], ev.a[1], ev.a[2]) == fsmGracefulRestart {
-					o.stat("loss_graceful", 1)
-				} else {
-					o.stat("loss_other", 1)
-				}
 				o.stat("loss_"+c12LossName[ev.a[0]], 1)
+				or.advance(or.now + c12LossElapsed(ev.a[0])) // time established() needs to notice this kind of loss
 				if ev.a[0] == c12NotifRecv || ev.a[0] == c12NotifRecvHard {
 					switch {
 					case ev.a[1] == 6 && ev.a[2] == 9:
@@ -1128,8 +1246,22 @@ func c12RunHistory(t *testing.T, o *vOut, cfg c12Cfg, evs []c12Ev, corpus string
 					judging = false
 					o.stat("unjudged_graceful_loss_during_llgr", 1)
 				}
-				e.loss(ev.a[0], ev.a[1], ev.a[2])
+				rt := int(e.p.fsm.pConf.ReadOnly().GracefulRestart.State.PeerRestartTime)
+				if e.loss(ev.a[0], ev.a[1], ev.a[2]) == fsmGracefulRestart {
+					o.stat("loss_graceful", 1)
+					switch {
+					case rt == 0:
+						o.stat("loss_graceful_restart_time_0", 1)
+					case rt == 1:
+						o.stat("loss_graceful_restart_time_1", 1)
+					case rt == 4095:
+						o.stat("loss_graceful_restart_time_4095", 1)
+					}
+				} else {
+					o.stat("loss_other", 1)
+				}
 				or.loss(ev.a[0], ev.a[1], ev.a[2])
+				or.advance(or.now) // deadlines that fall on the instant of the loss (restart time 0, LLGR time 0)
 			case "goto":
 				reason := fsmReadFailed
 				if ev.a[1] == 1 {
@@ -1242,6 +1374,11 @@ var c12Corpus = []struct{ name, hist string }{
 	{"returns-with-forwarding-bit-clear", "reset 1 0 0 33 0 2 0 1 1 1; goto 1 0; goto 2 0; goto 3 0; est 1 0 0 20 2 0 1 0 0 2 0 1 0; ann 0 1 2 0 0; ann 1 1 3 0 0; loss 0 0 0; goto 1 0; goto 2 0; goto 3 0; est 1 0 0 20 2 0 1 0 0 2 0 1 1 1; tick 1; eor 0; eor 1"},
 	{"returns-with-fewer-families-under-llgr", "reset 1 0 1 33 0 2 0 1 1 1; goto 1 0; goto 2 0; goto 3 0; est 1 0 0 7 2 0 1 1 2 0 50 1 60 2 0 1 0; ann 0 1 2 0 0; ann 1 1 3 0 0; loss 0 0 0; tick 10; goto 1 0; goto 2 0; goto 3 0; est 1 0 0 7 1 0 1 1 0 50 1 0 0; tick 1; eor 0; tick 100"},
 	{"gr-tuple-for-family-not-in-session", "reset 1 0 0 33 0 2 0 1 1 1; goto 1 0; goto 2 0; goto 3 0; est 1 0 0 20 2 0 1 0 0 2 0 1 0; ann 0 1 2 0 0; ann 1 1 3 0 0; loss 0 0 0; goto 1 0; goto 2 0; goto 3 0; est 1 0 0 20 2 0 1 0 0 1 0 0; ann 0 1 2 0 0; eor 0; tick 60"},
+	{"restart-time-zero-drops-at-once", "reset 1 0 0 33 0 1 0 1; goto 1 0; goto 2 0; goto 3 0; est 1 0 0 0 1 0 0 0 1 0 0; ann 0 1 2 0 0; loss 0 0 0; tick 1; tick 100"},
+	{"restart-time-zero-goes-long-lived-at-once", "reset 1 0 1 33 0 1 0 1; goto 1 0; goto 2 0; goto 3 0; est 1 0 0 0 1 0 1 1 0 25 1 0 0; ann 0 1 2 0 0; ann 0 2 3 1 0; loss 2 0 0; tick 24; tick 1; tick 5"},
+	{"llgr-time-zero-expires-with-the-restart-timer", "reset 1 0 1 33 0 2 0 1 1 1; goto 1 0; goto 2 0; goto 3 0; est 1 0 0 7 2 0 1 1 2 0 0 1 40 2 0 1 0; ann 0 1 2 0 0; ann 1 1 3 0 0; loss 0 0 0; tick 6; tick 1; tick 39; tick 1"},
+	{"restart-and-llgr-time-zero", "reset 1 0 1 33 0 1 0 1; goto 1 0; goto 2 0; goto 3 0; est 1 0 0 0 1 0 1 1 0 0 1 0 0; ann 0 1 2 0 0; loss 0 0 0; tick 1"},
+	{"maximum-restart-and-llgr-times", "reset 1 0 1 33 0 1 0 1; goto 1 0; goto 2 0; goto 3 0; est 1 0 0 4095 1 0 1 1 0 16777215 1 0 0; ann 0 1 2 0 0; loss 0 0 0; tick 4094; tick 1; tick 16777214; tick 1; tick 1"},
 	{"identical-reannouncement-is-fresh", "reset 1 0 0 33 0 1 0 1; goto 1 0; goto 2 0; goto 3 0; est 1 0 0 20 1 0 0 0; ann 0 1 2 0 0; ann 0 2 3 0 0; eor 0; loss 0; tick 5; goto 1 0; goto 2 0; goto 3 0; est 1 0 0 20 1 0 0 0; ann 0 1 2 0 0; eor 0; tick 30"},
 	{"identical-reannouncement-second-loss", "reset 1 0 0 33 0 1 0 1; goto 1 0; goto 2 0; goto 3 0; est 1 0 0 20 1 0 0 0; ann 0 1 2 0 0; loss 0; goto 1 0; goto 2 0; goto 3 0; est 1 0 0 20 1 0 0 0; ann 0 1 2 0 0; loss 2; goto 1 0; goto 2 0; goto 3 0; est 1 0 0 20 1 0 0 0; ann 0 1 2 0 0; eor 0"},
 	{"identical-reannouncement-under-llgr", "reset 1 0 1 33 0 2 0 1 1 1; goto 1 0; goto 2 0; goto 3 0; est 1 0 0 7 2 0 1 1 1 0 50; ann 0 1 2 0 0; ann 1 1 3 0 0; loss 0; tick 3; goto 1 0; goto 2 0; goto 3 0; est 1 0 0 7 2 0 1 1 1 0 50; ann 1 1 3 0 0; loss 0; tick 10; goto 1 0; goto 2 0; goto 3 0; est 1 0 0 7 2 0 1 1 1 0 50; ann 0 1 2 0 0; tick 50; eor 0; eor 1"},
@@ -1370,6 +1507,9 @@ func (c *c12PipeConn) Write(b []byte) (int, error) {
 	return c.Conn.Write(b)
 }
 
+// restart time the scripted peer advertises in TestVerifC12Session (swept over 0, 1, 2, 20, 4095)
+var c12SessionRestartTime = 20
+
 func c12SessionCase(t *testing.T, o *vOut, cfgGR, cfgNotif, capGR, capN bool, k, code, sub int) {
 	synctest.Test(t, func(t *testing.T) {
 		cfg := c12Cfg{gr: cfgGR, nb: cfgNotif, deferral: 33, fams: []c12FamCfg{{id: 0, mpCfg: true}}}
@@ -1385,7 +1525,7 @@ func c12SessionCase(t *testing.T, o *vOut, cfgGR, cfgNotif, capGR, capN bool, k,
 			e.p.fsm.pConf.Update(&conf)
 			e.p.fsm.lock.Unlock()
 		}
-		caps := c12Caps{gr: capGR, nbit: capN, time: 20, tuples: []int{0}}
+		caps := c12Caps{gr: capGR, nbit: capN, time: c12SessionRestartTime, tuples: []int{0}}
 		e.p.fsm.lock.Lock()
 		e.p.fsm.recvOpen = c12Open(caps, cfg.fams)
 		e.p.fsm.conn = conn
@@ -1407,12 +1547,19 @@ func c12SessionCase(t *testing.T, o *vOut, cfgGR, cfgNotif, capGR, capN bool, k,
 			reason *fsmStateReason
 		}
 		done := make(chan ret, 1)
+		// a restart timer still running from an earlier loss: entering established() must stop it
+		e.p.fsm.gracefulRestartTimer.Reset(3 * time.Second)
 		go func() {
 			n, r := h.established(ctx)
 			done <- ret{n, r}
 		}()
 		time.Sleep(5 * time.Second)
 		synctest.Wait()
+		select {
+		case <-e.p.fsm.gracefulRestartTimer.C:
+			o.fail("restart-timer-not-stopped-on-establish", map[string]any{"loss": c12LossName[k]})
+		default:
+		}
 		send := func(m *bgp.BGPMessage) {
 			b, _ := m.Serialize()
 			_, _ = remote.Write(b)
@@ -1456,10 +1603,13 @@ func c12SessionCase(t *testing.T, o *vOut, cfgGR, cfgNotif, capGR, capN bool, k,
 				}
 			}
 			t0 := time.Now()
-			time.Sleep(time.Duration(caps.time)*time.Second - time.Since(tLoss) - time.Second)
-			synctest.Wait()
-			early := fired()
-			time.Sleep(time.Second)
+			early := false
+			if caps.time >= 2 {
+				time.Sleep(time.Duration(caps.time)*time.Second - time.Since(tLoss) - time.Second)
+				synctest.Wait()
+				early = fired()
+			}
+			time.Sleep(time.Duration(caps.time)*time.Second - time.Since(tLoss)) // 0 for "expire at once"
 			synctest.Wait()
 			if onTime := fired(); early || !onTime {
 				o.fail("restart-timer-deadline", map[string]any{"loss": c12LossName[k], "restartTime": caps.time, "firedEarly": early, "firedOnTime": onTime,
@@ -1508,6 +1658,17 @@ func TestVerifC12Session(t *testing.T) {
 			c12SessionCase(t, o, m&1 != 0, m&2 != 0, m&4 != 0, m&8 != 0, k, code, sub)
 		}
 	}
+	// the restart time is an input: the real timer must fire exactly that long after a graceful loss,
+	// 0 ("expire at once") and the 12-bit maximum included
+	for _, rt := range []int{0, 1, 2, 4095} {
+		c12SessionRestartTime = rt
+		for _, k := range []int{c12ReadFail, c12WriteFail, c12HoldExpiry, c12HoldExpiryWriteErr, c12NotifRecv} {
+			code, sub := c12NotifDefault(k)
+			c12SessionCase(t, o, true, true, true, true, k, code, sub)
+			o.stat(fmt.Sprintf("session_restart_time_%d", rt), 1)
+		}
+	}
+	c12SessionRestartTime = 20
 	// the whole (code, subcode) space of NOTIFICATIONs, received and sent, through the real recvMessageloop /
 	// established(): all defined codes, 0, two undefined ones, subcodes 0..12 and 255
 	combos := []int{15, 7, 13, 11} // GR+N negotiated; OPEN without N; N not configured; OPEN without GR
